@@ -1,3 +1,6 @@
 import MiniconfVerif.Props.C06
 #print axioms MiniconfVerif.C06.count_exact
 #print axioms MiniconfVerif.C06.depth_exact
+#print axioms MiniconfVerif.C06.bits_exact
+#print axioms MiniconfVerif.C06.length_exact
+#print axioms MiniconfVerif.C06.buffers_suffice
